@@ -4,80 +4,11 @@ a kernel file that no longer translates (or no longer equals the model) does not
 equalities of `GenRegs2` down with it: `math::rotate`, `count_bits`, the wrapped i-power arithmetic, and the
 element-wise sweep of `dispatch.rs` (`for_each`, `for_each_par`).
 -/
-import Qvnt.Generated.Kernels
-import Qvnt.Lemmas.Bits
-import Mathlib.Tactic.Ring
-import Mathlib.Algebra.Ring.Basic
-
-namespace Qvnt.Gen
-open Qvnt
-
-variable {R : Type}
-
-theorem rotate_eq [Neg R] (z : Cx R) (q : Nat) : Gen.rotate z q = Qvnt.rotate z q := by
-  unfold Gen.rotate Qvnt.rotate
-  by_cases h2 : q &&& 2 = 0 <;> by_cases h1 : q &&& 1 = 0 <;> simp [h1, h2]
-
-theorem count_bits_eq (n : Nat) : Gen.count_bits n = countBits n := rfl
-
-theorem negWord_eq (c : Nat) : wrapAdd 64 (notW 64 c) 1 = negWord c := by
-  unfold wrapAdd notW negWord W; rfl
-
-theorem yIPow_eq (a : Nat) : notW 32 (wrapAdd 32 (popcount a) 1) = yIPow a := by
-  unfold wrapAdd notW yIPow
-  have : (popcount a + 1) % 2 ^ 32 % 2 ^ 32 = (popcount a + 1) % 2 ^ 32 := Nat.mod_mod _ _
-  omega
-
-section sweep
-
-/-- `!idx & ctrl == 0` on 64-bit words says "every control bit of `ctrl` is set in `idx`" -/
-theorem ctrlTest_iff (idx ctrl : Nat) (hc : ctrl < 2 ^ 64) :
-    (notW 64 idx &&& ctrl = 0) ↔ (idx &&& ctrl = ctrl) := by
-  unfold notW
-  have h1 : 2 ^ 64 - 1 - idx % 2 ^ 64 = 2 ^ 64 - (idx % 2 ^ 64 + 1) := by omega
-  rw [h1]
-  constructor
-  · intro h
-    apply Nat.eq_of_testBit_eq; intro i
-    have := congrArg (fun n => n.testBit i) h
-    simp only [Nat.testBit_and, Nat.zero_testBit, Nat.testBit_two_pow_sub_succ (Nat.mod_lt _ (by decide : 0 < 2 ^ 64)),
-      Nat.testBit_mod_two_pow] at this
-    rw [Nat.testBit_and]
-    by_cases hi : i < 64
-    · simp [hi] at this
-      cases hb : idx.testBit i <;> cases hcb : ctrl.testBit i <;> simp_all
-    · have : ctrl.testBit i = false := Nat.testBit_lt_two_pow (lt_of_lt_of_le hc (Nat.pow_le_pow_right (by decide) (by omega)))
-      simp [this]
-  · intro h
-    apply Nat.eq_of_testBit_eq; intro i
-    have := congrArg (fun n => n.testBit i) h
-    simp only [Nat.testBit_and] at this
-    simp only [Nat.testBit_and, Nat.zero_testBit, Nat.testBit_two_pow_sub_succ (Nat.mod_lt _ (by decide : 0 < 2 ^ 64)),
-      Nat.testBit_mod_two_pow]
-    by_cases hi : i < 64
-    · cases hb : idx.testBit i <;> cases hcb : ctrl.testBit i <;> simp_all
-    · simp [hi]
-
-variable [Add R] [Sub R] [Mul R] [Neg R] [Consts R]
-
-/-- the element `for_each` writes is the element the model's `SingleOp.apply` defines -/
-theorem forEach_eq (g : SingleOp R) (hc : g.ctrl < 2 ^ 64) (ψ : State R) (idx : Nat) :
-    Gen.forEach g.func.op ψ g.ctrl idx = g.apply ψ idx := by
-  unfold Gen.forEach SingleOp.apply
-  by_cases h0 : g.ctrl = 0
-  · simp [h0]
-  · have := ctrlTest_iff idx g.ctrl hc
-    by_cases h1 : idx &&& g.ctrl = g.ctrl
-    · simp [h0, h1, this.mpr h1]
-    · have h2 : ¬ (notW 64 idx &&& g.ctrl = 0) := fun h => h1 (this.mp h)
-      simp [h0, h1, h2]
-
-/-- the parallel sweep computes every element by the same expression as the sequential one -/
-theorem forEachPar_eq (op : State R → Nat → Cx R) (ψ : State R) (ctrl idx : Nat) :
-    Gen.forEachPar op ψ ctrl idx = Gen.forEach op ψ ctrl idx := rfl
-
-theorem forEachTwins_true : Gen.forEachTwins = true := rfl
-
-end sweep
-
-end Qvnt.Gen
+import Qvnt.Lemmas.GenCore.rotate_eq
+import Qvnt.Lemmas.GenCore.count_bits_eq
+import Qvnt.Lemmas.GenCore.negWord_eq
+import Qvnt.Lemmas.GenCore.yIPow_eq
+import Qvnt.Lemmas.GenCore.ctrlTest_iff
+import Qvnt.Lemmas.GenCore.forEach_eq
+import Qvnt.Lemmas.GenCore.forEachPar_eq
+import Qvnt.Lemmas.GenCore.forEachTwins_true
